@@ -124,7 +124,7 @@ def run(ctx):
     cws = corpus_inputs(ctx)
     cres = []
     if cws:
-        cres = L.evaluate(bindir, exe, cws, timeout=900)
+        cres = L.evaluate(bindir, exe, cws, timeout=900, with_text=False)
         os.environ.pop("INCLUDE_DIR", None)
     found = False
     n_q = n_rec = 0
